@@ -365,23 +365,30 @@ fn zip_check_in(c: &ZipCase, rep: &mut Rep, root: &Path, nr: usize) -> Result<()
     rep.label_if(hostile, "hostile_name");
     rep.label_if(has_dup, "duplicate_name");
     rep.label_if(members.iter().any(|m| m.1.is_empty() && !m.0.ends_with('/')), "empty_member");
-    // volumes on disk
+    // volumes on disk. The archive's name is unique, or (a third of the cases) the same in every case: archives of one
+    // name in different directories, handled by one process within seconds of each other
     let vols = split(&bytes, &c.volumes);
     let multi = vols.len() > 1;
     rep.label_if(multi, "multi_volume");
+    // (not together with the bare relative name below: there the harness changes the working directory, which adlt never
+    // does - the same relative name would denote different files within one process)
+    let bare = c.volumes.len() % 2 == 1 || (!multi && c.members.len() % 4 == 0);
+    let shared_name = c.members.len() % 3 == 1 && !(c.call % 3 == 2 && bare);
+    let stem = if shared_name { "logs".to_string() } else { format!("t{}", nr) };
+    rep.label_if(shared_name, "archive_name_used_before_in_another_directory");
     let arch_dir = root.join("arch");
     let first = if multi {
         // (written last volume first: the order in the directory must not matter)
         for (i, v) in vols.iter().enumerate().rev() {
-            std::fs::write(arch_dir.join(format!("t{}.zip.{:03}", nr, i + 1)), v).map_err(|e| e.to_string())?;
+            std::fs::write(arch_dir.join(format!("{}.zip.{:03}", stem, i + 1)), v).map_err(|e| e.to_string())?;
         }
         // other files next to the volumes that do not belong to this archive
-        for decoy in [format!("t{}0.zip.001", nr), format!("x{}.zip.002", nr), format!("t{}.zip.0010", nr), format!("t{}.ZIP.002", nr), format!("t{}.zip.00a", nr)] {
+        for decoy in [format!("{}0.zip.001", stem), format!("x{}.zip.002", stem), format!("{}.zip.0010", stem), format!("{}.ZIP.002", stem), format!("{}.zip.00a", stem)] {
             std::fs::write(arch_dir.join(decoy), b"not a volume of this archive").map_err(|e| e.to_string())?;
         }
-        arch_dir.join(format!("t{}.zip.001", nr))
+        arch_dir.join(format!("{}.zip.001", stem))
     } else {
-        let p = arch_dir.join(format!("t{}.zip", nr));
+        let p = arch_dir.join(format!("{}.zip", stem));
         std::fs::write(&p, &bytes).map_err(|e| e.to_string())?;
         p
     };
@@ -389,7 +396,7 @@ fn zip_check_in(c: &ZipCase, rep: &mut Rep, root: &Path, nr: usize) -> Result<()
         let mut files = vec![];
         if multi {
             for i in 0..vols.len() {
-                files.push(std::fs::File::open(arch_dir.join(format!("t{}.zip.{:03}", nr, i + 1))).map_err(|e| e.to_string())?);
+                files.push(std::fs::File::open(arch_dir.join(format!("{}.zip.{:03}", stem, i + 1))).map_err(|e| e.to_string())?);
             }
         } else {
             files.push(std::fs::File::open(&first).map_err(|e| e.to_string())?);
@@ -404,6 +411,18 @@ fn zip_check_in(c: &ZipCase, rep: &mut Rep, root: &Path, nr: usize) -> Result<()
     exp_listed.sort();
     ensure_eq!(listed, exp_listed, "archive listing");
 
+    if shared_name && c.call % 3 == 2 {
+        // just before: another archive of the same file name, in another directory, with other members
+        let cancel = Arc::new(AtomicBool::new(false));
+        let log = slog::Logger::root(slog::Discard, slog::o!());
+        let other_dir = root.join("arch_other");
+        std::fs::create_dir_all(&other_dir).map_err(|e| e.to_string())?;
+        let other = other_dir.join(format!("{}.zip", stem));
+        std::fs::write(&other, write_zip_stored(&[("only/in_the_other.txt".to_string(), b"other".to_vec())])).map_err(|e| e.to_string())?;
+        let mut other_dirs = vec![];
+        let ro = extract_archives(other.display().to_string(), &mut other_dirs, &cancel, &log);
+        ensure!(ro.len() == 1 && ro[0].ends_with("in_the_other.txt"), "harness: the other archive of the same name gave {:?}", ro);
+    }
     let before = snapshot(root);
     let cancel = Arc::new(AtomicBool::new(false));
     let pat = GLOBS[c.glob as usize % GLOBS.len()];
@@ -429,7 +448,6 @@ fn zip_check_in(c: &ZipCase, rep: &mut Rep, root: &Path, nr: usize) -> Result<()
             rep.label("extract_archives");
             let mut temp_dirs = vec![];
             // the archive named by its bare file name, from within its directory (as on a command line)
-            let bare = c.volumes.len() % 2 == 1 || (!multi && c.members.len() % 4 == 0);
             let prev_cwd = std::env::current_dir().ok();
             let first_arg: String = if bare {
                 std::env::set_current_dir(&arch_dir).map_err(|e| e.to_string())?;
